@@ -194,6 +194,11 @@ def run_spec(arg):
     xs = tonp(x).astype(np.float64)  # stored (rounded) inputs
     r.case(key, nontrivial=nontriv)
     try:
+        if spec.get("refit"):
+            # non-initial state: the same object was fitted before on other data (SMC refits its
+            # preconditioning transform every iteration)
+            t0 = 0.5 + 0.2 * (positions(batch, d, spec.get("shift", 0) + 3) - 0.5)
+            tr.fit(to_ns(lo + t0 * (hi - lo), ns, dt))
         fitted_out = tonp(tr.fit(x)).astype(np.float64)
         y, lj = tr.forward(x)
         xb, lji = tr.inverse(y)
@@ -429,7 +434,12 @@ def specs(tier):
             if not b2u and bt == "probit":
                 continue
             out.append({"kind": "flowtransform", "d": d, "bounds": bsets[d][0], "batch": 7, "b2u": b2u, "bt": bt, "affine": affine})
-    return out
+    # every transform with fitted state is also exercised after a previous fit on other data
+    refits = []
+    for sp in out:
+        if sp["batch"] >= 3 and (sp["kind"] == "affine" or sp.get("affine")):
+            refits.append(dict(sp, refit=True))
+    return out + refits
 
 
 def dispatch(job):
